@@ -39,7 +39,12 @@ class Spec(CheckSpec):
             prof = {"tight_links": 0.7, "push": 0.1, "n_green": (1, 3), "n_red": (1, 2), "obs": i % 3 == 0}
             if i % 4 == 3:
                 prof["topologies"] = ["wireless"]  # wireless channel clause: two wireless routers, channel capacity of a few frames
-            yield {"seed": seed, "profile": prof, "n_ops": 40, "monitors": mons, "op_mix": {"step": 0.85, "reset": 0.03, "fault": 0.12}}
+            job = {"seed": seed, "profile": prof, "n_ops": 40, "monitors": mons, "op_mix": {"step": 0.85, "reset": 0.03, "fault": 0.12}}
+            if i % 3 == 1:
+                # run-time re-cabling (cables pulled and plugged in again through the public Network API)
+                job["extra_faults"] = ["F8_recable", "F8_recable", "F8_recable"]
+                job["op_mix"] = {"step": 0.8, "reset": 0.02, "fault": 0.18}
+            yield job
         shipped = [("data_manipulation.yaml", 40, 50), ("uc7_config.yaml", 25, 30)]
         for name, mel, nops in shipped:
             yield {"seed": base_seed * 1000003 + 918000 + len(name), "shipped": name, "max_episode_length": mel, "n_ops": nops, "monitors": mons}
